@@ -207,6 +207,7 @@ type Sim struct {
 	posts    []func() *Violation
 	idRng    *rand.Rand
 	portTable map[string]*portEntry
+	upstreams map[string]Upstream
 	endSim   time.Duration
 
 	locks    map[uintptr]*lockInfo
